@@ -154,6 +154,33 @@ def ibm_ref(b):
     return ('f', canon(-f if s else f, 4 * (e - 64) - 24))
 
 
+def ibm_encode_ref(x):
+    """IBM System/360 single precision encoding of the finite double x, normalised (first hexadecimal digit of the
+    fraction non-zero) and truncated toward zero, written from the format definition with integer arithmetic only.
+    Returns the 4 bytes, or None when the power of 16 does not fit the 7-bit excess-64 exponent."""
+    if x == 0:
+        return bytes(4)
+    n, d = x.as_integer_ratio()
+    s = 1 if n < 0 else 0
+    n = abs(n)
+    # smallest p with |x| < 16**p
+    p = (n.bit_length() - d.bit_length()) // 4 - 2
+    while n >= d * 16 ** p if p >= 0 else n * 16 ** (-p) >= d:
+        p += 1
+    # fraction F = floor(|x| / 16**p * 2**24)
+    num, den = n << 24, d
+    if p >= 0:
+        den *= 16 ** p
+    else:
+        num *= 16 ** (-p)
+    F = num // den
+    E = p + 64
+    if not 0 <= E <= 127:
+        return None
+    assert (1 << 20) <= F < (1 << 24)
+    return bytes([(s << 7) | E, (F >> 16) & 255, (F >> 8) & 255, F & 255])
+
+
 def vax_ref_repo(b):
     """VSINGL as the repository's cited vector (0C 44 00 80 -> 153) defines it: (0.5 + M/2**23) * 2**(E-128)
     (DESIGN F9; a VAX F_floating fraction has weight 2**-24)."""
